@@ -250,9 +250,11 @@ func m3GenMidline(r *rng, n int, w *bufio.Writer) {
 		genuine := map[string]bool{}
 		byIdx := map[int64]string{}
 		var idxs []int64
+		var scanned []rules.Rule
 		scan := ms.NewRuleStorageScanner()
 		for scan.Scan() {
 			f, idx := scan.Rule()
+			scanned = append(scanned, f)
 			genuine[f.Text()] = true
 			byIdx[idx] = f.Text()
 			idxs = append(idxs, idx)
@@ -269,6 +271,15 @@ func m3GenMidline(r *rng, n int, w *bufio.Writer) {
 		for i, q := range sc.queries {
 			ts, _ := m3MidAsk(refNE, refDE, q)
 			ref[i] = fSetOf(ts)
+			if q.dns != nil {
+				// an unreadable deciding network rule lets MatchRequest fall through to the hosts table: the host
+				// part of a degraded DNS answer is compared with what the list holds for the name
+				for _, f := range scanned {
+					if hr, ok := f.(*rules.HostRule); ok && hr.Match(q.dns.Hostname) {
+						ref[i][hr.Text()] = true
+					}
+				}
+			}
 			long := false
 			for _, t := range ts {
 				long = long || len(t) > bufSize
